@@ -185,6 +185,23 @@ def check_tables(ci, i0, i1, mi, lmax, lmax1, all_buckets=False):
                   + model_entries(A, k, spacing, refs[1], 2, clip(ignored[1], len(refs[1]))))
     nk = A ** k
     counts = [sum(1 for e in want if e[0] == km) for km in range(nk)]
+    if spacing is not None and mi == 0:
+        # a spacing model may also be given as a list of informative positions, in any order: same alphabet, same k-mers,
+        # same tables as the '10..1' string
+        from biotite.sequence.align import KmerAlphabet, BucketKmerTable
+        off = offsets(k, spacing)
+        ref_alph = KmerAlphabet(alphabet(A), k, spacing)
+        ref_kmers = ref_alph.create_kmers(np.array(refs[0], dtype=np.uint8)).tolist()
+        for form in (list(off), list(off)[::-1], list(off)[1:] + list(off)[:1], np.array(list(off)[::-1])):
+            ka = KmerAlphabet(alphabet(A), k, form)
+            if ka != ref_alph or ka.kmer_array_length(len(refs[0])) != ref_alph.kmer_array_length(len(refs[0])):
+                return f"KmerAlphabet with spacing {list(form)} differs from the one with spacing {spacing!r}"
+            if ka.create_kmers(np.array(refs[0], dtype=np.uint8)).tolist() != ref_kmers:
+                return f"k-mers with spacing {list(form)}: {ka.create_kmers(np.array(refs[0], dtype=np.uint8)).tolist()} vs {ref_kmers}"
+            for cls, extra in ((KmerTable, {}), (BucketKmerTable, dict(n_buckets=3))):
+                tl = cls.from_sequences(k, [mkseq(A, refs[0])], [5], None, alphabet(A), list(form), **extra)
+                if table_entries(tl, nk) != sorted(model_entries(A, k, spacing, refs[0], 5)):
+                    return f"{cls.__name__} built with spacing {list(form)}: {table_entries(tl, nk)}"
     for nb in (BUCKETS if all_buckets else (BUCKETS[(i0 + i1) % len(BUCKETS)],)):
         kalph, tables = build_tables(A, k, spacing, refs, ref_ids, ignored, nb)
         for name, t in tables.items():
@@ -321,6 +338,13 @@ def check_similarity(A, k, mi, thr, nb):
         got = sorted(map(tuple, t.match(mkseq(A, query), similarity_rule=rule).tolist()))
         if got != want:
             return f"{cls.__name__}.match with rule: {len(got)} rows, expected {len(want)}; missing {sorted(set(want) - set(got))[:3]} extra {sorted(set(got) - set(want))[:3]}"
+        # the rule together with an ignore mask on the query
+        for qi in ((1,), (0, len(query) - 1), tuple(range(2, len(query), 3))):
+            want_m = sorted(model_matches(entries, A, k, None, query, qi, similar))
+            got = sorted(map(tuple, t.match(mkseq(A, query), similarity_rule=rule, ignore_mask=ignore_mask(len(query), qi)).tolist()))
+            if got != want_m:
+                return (f"{cls.__name__}.match with rule and ignore mask {qi}: {len(got)} rows, expected {len(want_m)}; missing "
+                        f"{sorted(set(want_m) - set(got))[:3]} extra {sorted(set(got) - set(want_m))[:3]}")
         qt = cls.from_sequences(k, [mkseq(A, query)], [9], **extra)
         got = sorted(map(tuple, t.match_table(qt, similarity_rule=rule).tolist()))
         if got != want4:
